@@ -1,13 +1,13 @@
 CONSTANTS
   Impl = "intended"
   Codecs = {"h264", "h265"}
-  MTUs = {128, 1200}
-  Sizes = {"s", "b"}
-  MaxNals = 4
-  Openers = {FALSE}
-  Aggs = {TRUE, FALSE}
+  MTUs = {1200}
+  Sizes = {"s", "L255", "L256", "L257", "L300", "L700"}
+  MaxNals = 3
+  Openers = {FALSE, TRUE}
+  Aggs = {TRUE}
   Types264 = {1, 5, 7, 8}
-  Types265 = {1, 19, 32, 39}
+  Types265 = {1, 19, 39}
   Emit = TRUE
 INIT Init
 NEXT Next
